@@ -44,7 +44,9 @@ def crash_key(out, rc, fallback=None):
         return ("ubsan", fm.group(1) if fm else "", os.path.basename(m.group(1)), m.group(0))
     m = re.search(r"FAULT sig=(\d+)( blocked-on-zone-mutex)?", out)
     if m:
-        return ("zone-mutex-still-held" if m.group(2) else "fault-sig" + m.group(1), "", "", out[m.start():m.start() + 300].split("\n")[0])
+        # the watchdog (sig 14: the call did not return) names no function: the command the driver was executing does (case=<op> ...)
+        cm = re.search(r"case=(\w+)", out[m.start():m.start() + 300].split("\n")[0]) if m.group(1) == "14" else None
+        return ("zone-mutex-still-held" if m.group(2) else "fault-sig" + m.group(1), cm.group(1) if cm else "", "", out[m.start():m.start() + 300].split("\n")[0])
     if fallback: return fallback
     return ("timeout", "", "", "driver timeout") if rc == 124 else ("exit-%s" % rc, "", "", out[-400:])
 
@@ -56,6 +58,7 @@ class Rig:
                              flags=["-Wall", "-Wno-unused-parameter", LDWRAP])
         self.env = {"ASAN_OPTIONS": "detect_leaks=0:abort_on_error=0:allocator_may_return_null=1:max_allocation_size_mb=512",
                     "UBSAN_OPTIONS": "print_stacktrace=1:halt_on_error=1"}
+        if ctx.quick: self.env["X01_WD_HIST_CPU"] = "30"       # watchdog of one random / free-running history (quick tier: <= 1 s of CPU time each)
         self.n = 0
 
     def drive(self, lines, timeout=300, leaks=False):
@@ -221,12 +224,16 @@ def replay_behaviours(rig, module, cfg, first_op, nbeh, depth, label, keyprefix)
                 lines.append(cmd_of(new_ev["ev"])); meta.append((b, new_ev))
         lines.append(cmd_of(s["ev"])); meta.append((b, s))
     if b + 1 < nbeh // 2: raise common.Infra("simulation emitted too little (%d behaviours)" % (b + 1))
-    res = common.batch_run(rig.exe, lines, timeout=900, env=rig.env)
+    # the driver dies on call after call (each death reported, the rest of its behaviour skipped): after 8 deaths the remaining
+    # behaviours are not run - the check ends with its verdict in bounded time (and does not judge the vacuity of a cut corpus)
+    res = common.batch_run(rig.exe, lines, timeout=900, env=rig.env, max_crashes=8, on_excess="skip")
+    if any(isinstance(a, dict) and a.get("skipped") for a in res): CUT[0] = True
     dead = -1; nsteps = 0; nbad = 0; start = 0
     ops = collections.Counter(); feats = collections.Counter()
     for i, (ln, (bid, s), a) in enumerate(zip(lines, meta, res)):
         if i == 0 or meta[i - 1][0] != bid: start = i
         if bid == dead: continue
+        if isinstance(a, dict) and a.get("skipped"): continue
         if isinstance(a, dict):
             c = crash_key(a["raw"], 1, a["crash"]); dead = bid
             ctx.fail("%s:%s:%s" % (keyprefix, c[0], c[1]), "%s: %s\n%s" % (label, c[3], a["raw"]), {"commands": lines[start:i + 1]})
@@ -261,9 +268,10 @@ def replay_behaviours(rig, module, cfg, first_op, nbeh, depth, label, keyprefix)
     if states: ctx.add(samples=[{"call": lines[-1], "expected": states[-1]["ev"]}])
     return ops, feats
 
+CUT = [False]       # a replay was cut short after repeated deaths of the driver
 def need(label, have, wanted):
     miss = [w for w in wanted if not have.get(w)]
-    if miss: raise common.Infra("vacuous corpus (%s): never saw %s in %s" % (label, miss, dict(have)))
+    if miss and not CUT[0]: raise common.Infra("vacuous corpus (%s): never saw %s in %s" % (label, miss, dict(have)))
 
 # ---------------------------------------------------------------- binding (ii): real histories validated by TLC
 def real_histories(rig):
